@@ -74,6 +74,7 @@ def run(ctx) -> None:
   ctx.rule('R4', 'suggested parameters derive from a clipping decoder or from values enumerated from the config', 10)
   ctx.rule('R5', 'scaler unmap decodes through to_parameter_values; eagle value producers clamp / snap', 3)
   ctx.rule('R6', 'default seeding goes through the validating builder with exactly computed values; midpoint is the mean of the bounds', 4)
+  ctx.import_rules('C12', {'R6'}, 'R7', 'suggestions are produced for the study of the request: the service keeps no policy (and no search space) between requests')
   mi = ctx.index.module_of_file(C15.CORE)
   C15.r3_decoder(_Relabel(ctx, 'R1'), mi)
   hosted = r2_factory(ctx)
